@@ -8,7 +8,7 @@ the configurations of the listed known findings (so that those are not re-report
 from fractions import Fraction
 from math import inf
 
-from harness.c12_flex import main_cross_gaps
+from harness.c12_flex import computed_factor, main_cross_gaps
 
 F = Fraction
 TOL = F(1, 10**6)
@@ -50,11 +50,11 @@ def flex_reference(case):
     keys = ('width', 'minw', 'maxw', 'ml', 'mr', 'pl', 'pr', 'bl', 'br') if row else \
         ('height', 'minh', 'maxh', 'mt', 'mb', 'pt', 'pb', 'bt', 'bb')
     size_k, min_k, max_k, m1, m2, p1, p2, b1, b2 = keys
-    items = sorted(case['items'], key=lambda it: it['order'])
+    # negative flex-grow / flex-shrink are invalid: the declarations are ignored (initial values 0 / 1)
+    items = sorted((dict(it, grow=computed_factor(it['grow'], 0), shrink=computed_factor(it['shrink'], 1))
+                    for it in case['items']), key=lambda it: it['order'])
     st = []
     for it in items:
-        if it['grow'] < 0 or it['shrink'] < 0:
-            return None
         if not row and (it['mt'] is None or it['mb'] is None):
             return None                  # known finding flex-vertical-auto-margins-zeroed
         if it['basis'] == 'content' or (it['basis'] == 'auto' and it[size_k] is None):
@@ -427,8 +427,6 @@ def placement_reference_named(start, end, lines):
             k, name = end[1] or 1, end[2]
             if name is None:
                 return (s, k)
-            if s + 1 >= n_lines:
-                return None              # known finding grid-named-span-from-last-line (the span is doubled)
             occ = [i for i in range(s + 1, n_lines) if name in lines[i]]
             e = occ[k - 1] if len(occ) >= k else max(n_lines - 1, s) + (k - len(occ))
             return (s, e - s)
@@ -447,8 +445,6 @@ def placement_reference_named(start, end, lines):
     k, name = start[1] or 1, start[2]
     if name is None:
         return (e - k, k)
-    if k != (1 if end[1] is None else (end[1] if end[2] is None else None)):
-        return None                      # known finding grid-backward-named-span-count (the end line's integer is used)
     # the k-th line called `name` strictly before the end line, searching backwards; not enough of them: the
     # implicit lines before the explicit grid are assumed to have the name
     occ = [i for i in range(min(e, n_lines) - 1, -1, -1) if name in lines[i]]
